@@ -3,6 +3,7 @@ import WhVerif.Lemmas.C05Tables
 import WhVerif.Lemmas.C03
 import WhVerif.Lemmas.C05SolverCol
 import WhVerif.Lemmas.C05SolverPed
+import WhVerif.Lemmas.C05PipelineExample
 /-!
 # C05 — pedigree phasing is Mendelian-consistent and ordered paternal|maternal
 
@@ -296,5 +297,128 @@ example : WhVerif.C01.WF exSolver ∧ PedOK exSolver ∧ (WhVerif.C01.witness ex
     | 1 => rfl
     | 2 => exact absurd rfl hj
     | n + 3 => rfl
+
+end WhVerif.Props.C05
+
+/-! ## composition: ANY reads (noisy, none, deep) — the solver's output for a trio is Mendelian and ordered
+paternal|maternal, and so is the child call decoded from the written VCF (solver C01 → components C03 → multi-sample
+writer C04 → reader C09; `Spec/C05Pipeline.lean`, `Lemmas/C05Pipeline*.lean`, `notes/C05P.md`) -/
+namespace WhVerif.Props.C05
+open WhVerif.C01 WhVerif.C05.Solver WhVerif.C05P
+open WhVerif.C02P (posAt biallelic)
+
+/-- **solver level, FULL**: any instance (any reads — noisy ones included —, any recombination costs, any `PedOK`
+pedigree), `witness I = some (β, τ)`, a trio `(f, m, ch)` = `trios[k]` whose members have trusted genotypes `gf, gm, gc`
+(number of ALT alleles; the constraint table admits exactly that one) in column `c`.  For the child's super-read entry
+`(a0, a1)` = `get_alleles` of column `c` under the witness: an allele without tie flag (≠ 3, so the writer can phase it) is
+0/1, `a0` is an allele of the FATHER's genotype and `a1` of the MOTHER's, `a0 + a1` is the child's genotype, and `a0`
+equals the allele the father's super read carries on the haplotype `selHap τ_c (2k)` selected by transmission bit `2k`
+whenever that entry has no tie flag (likewise `a1`, the mother, bit `2k+1`). -/
+theorem pedigree_output_mendelian (I : Inst) (hwf : WF I) (hok : PedOK I) (β : List Bool) (τ : List Nat)
+    (hw : witness I = some (β, τ)) (k f m ch : Nat) (htr : I.trios[k]? = some (f, m, ch))
+    (c : Nat) (hc : c < I.ncols) (gf gm gc : Nat)
+    (hgf : trustedGeno I f c = some gf) (hgm : trustedGeno I m c = some gm) (hgc : trustedGeno I ch c = some gc) :
+    ∃ L, getAlleles I c (restrict β (I.activeAt c)) (τ.getD c 0) = some L ∧ L.length = I.nind ∧
+      ∀ a0 a1, L.getD ch (0, 0) = (a0, a1) →
+        (a0 ≠ 3 → a0 ≤ 1 ∧ a0 ∈ genoAlleles gf ∧
+          (reported L f (selHap (τ.getD c 0) (2 * k)) ≠ 3 → reported L f (selHap (τ.getD c 0) (2 * k)) = a0)) ∧
+        (a1 ≠ 3 → a1 ≤ 1 ∧ a1 ∈ genoAlleles gm ∧
+          (reported L m (selHap (τ.getD c 0) (2 * k + 1)) ≠ 3 →
+            reported L m (selHap (τ.getD c 0) (2 * k + 1)) = a1)) ∧
+        (a0 ≠ 3 → a1 ≠ 3 → a0 + a1 = gc) := by
+  obtain ⟨L, hL, hlen, h0, h1, hs⟩ := column_mendelian I hwf hok β τ hw k f m ch htr c hc gf gm gc hgf hgm hgc
+  refine ⟨L, hL, hlen, ?_⟩
+  intro a0 a1 he
+  rw [reported_zero, he] at h0 hs
+  rw [reported_one, he] at h1 hs
+  exact ⟨h0, h1, hs⟩
+
+/-- **end to end, FULL** (tag PS and tag HP, multi-sample records, header may contain samples outside the family):
+`Trusted` genotypes, `PedOK` pedigree, the side conditions `PedPipelineOk` the pipeline establishes by construction,
+the solver returned `(β, τ)` and `find_components` returned `comps`.  Then no stage raises, the reader returns one row
+per biallelic record, and for every trio `(f, m, ch)` = `trios[k]` and every row in which the CHILD's call is decoded
+as phased `a|b` (header column `j`): the row is a column `c` of the instance, `(a, b)` is the child's super-read entry
+there, `a ≠ b`, `a` is an allele of the father's genotype at `c` and `b` of the mother's, `a + b` is the child's
+genotype; and if the FATHER's call in that row is decoded as phased, it is in the same phase set and carries `a` on the
+haplotype selected by transmission bit `2k` of `τ_c` (likewise the mother, `b`, bit `2k+1`). -/
+theorem pedigree_vcf_mendelian (S : Stage) (hwf : WF S.I) (hok : PedOK S.I) (htrust : Trusted S.I)
+    (hin : PedPipelineOk S) (β : List Bool) (τ : List Nat) (hw : witness S.I = some (β, τ))
+    (comps : List (Nat × Nat)) (hcomps : components S = .ok comps)
+    (k f m ch : Nat) (htr : S.I.trios[k]? = some (f, m, ch)) :
+    ∃ rows, pipeline S = some rows ∧
+      rows.map (·.pos) = (S.records.filter biallelic).map (·.pos) ∧
+      ∀ row ∈ rows, ∀ j ph, S.header[j]? = some (S.names.getD ch "") → samplePhase row j = some ph →
+        ∃ c a b gf gm gc, c < S.I.ncols ∧ row.pos = posAt S.pos c ∧
+          ph.alleles = [some a, some b] ∧ (a, b) = colEntry S.I β τ c ch ∧ a ≤ 1 ∧ b ≤ 1 ∧ a ≠ b ∧
+          trustedGeno S.I f c = some gf ∧ trustedGeno S.I m c = some gm ∧ trustedGeno S.I ch c = some gc ∧
+          a ∈ genoAlleles gf ∧ b ∈ genoAlleles gm ∧ a + b = gc ∧
+          (∀ jf phf, S.header[jf]? = some (S.names.getD f "") → samplePhase row jf = some phf →
+            phf.block = ph.block ∧ phf.alleles[selHap (τ.getD c 0) (2 * k)]? = some (some a)) ∧
+          (∀ jm phm, S.header[jm]? = some (S.names.getD m "") → samplePhase row jm = some phm →
+            phm.block = ph.block ∧ phm.alleles[selHap (τ.getD c 0) (2 * k + 1)]? = some (some b)) :=
+  ped_vcf_mendelian S hwf hok htrust hin β τ hw comps hcomps k f m ch htr
+
+/-- the same against the INPUT records: if the instance's constraint table was built from the input genotypes (the
+seam `hlink`, checked by the harness on every traced run), the decoded `a|b` of the child has `a` among the alleles of
+the father's input call and `b` among the mother's -/
+theorem pedigree_vcf_mendelian_input_gt (S : Stage) (hwf : WF S.I) (hok : PedOK S.I) (htrust : Trusted S.I)
+    (hin : PedPipelineOk S) (β : List Bool) (τ : List Nat) (hw : witness S.I = some (β, τ))
+    (comps : List (Nat × Nat)) (hcomps : components S = .ok comps)
+    (k f m ch : Nat) (htr : S.I.trios[k]? = some (f, m, ch))
+    (hlink : ∀ r ∈ S.records, ∀ c, c < S.I.ncols → r.pos = posAt S.pos c → ∀ ind, ind < S.I.nind → ∀ call g,
+      WhVerif.C04.clookup r.calls (S.names.getD ind "") = some call → trustedGeno S.I ind c = some g →
+      WhVerif.C04.gcode call.gt = genoAlleles g) :
+    ∃ rows, pipeline S = some rows ∧
+      ∀ row ∈ rows, ∀ j ph, S.header[j]? = some (S.names.getD ch "") → samplePhase row j = some ph →
+        ∃ a b, ph.alleles = [some a, some b] ∧
+          ∀ r ∈ S.records, r.pos = row.pos → ∀ cf cm,
+            WhVerif.C04.clookup r.calls (S.names.getD f "") = some cf →
+            WhVerif.C04.clookup r.calls (S.names.getD m "") = some cm →
+            a ∈ WhVerif.C04.gcode cf.gt ∧ b ∈ WhVerif.C04.gcode cm.gt := by
+  obtain ⟨rows, hp, _, h⟩ := ped_vcf_mendelian S hwf hok htrust hin β τ hw comps hcomps k f m ch htr
+  have hmem := hok.members _ (List.mem_of_getElem? htr)
+  refine ⟨rows, hp, ?_⟩
+  intro row hrow j ph hj hph
+  obtain ⟨c, a, b, gf, gm, gc, hc, hpos, hal, _, _, _, _, hgf, hgm, _, ha, hb, _⟩ := h row hrow j ph hj hph
+  refine ⟨a, b, hal, ?_⟩
+  intro r hr hrp cf cm hcf hcm
+  rw [hlink r hr c hc (by rw [hrp, hpos]) f hmem.1 cf gf hcf hgf,
+    hlink r hr c hc (by rw [hrp, hpos]) m hmem.2.1 cm gm hcm hgm]
+  exact ⟨ha, hb⟩
+
+/-- **completeness** (so the statements above are not vacuous): a column whose super-read entry for family member
+`ind` is `0|1` or `1|0` (no tie flag) and whose position has a component IS phased, with exactly that pair, in every
+biallelic record at that position -/
+theorem pedigree_vcf_phased (S : Stage) (hwf : WF S.I) (hin : PedPipelineOk S) (β : List Bool) (τ : List Nat)
+    (hw : witness S.I = some (β, τ)) (comps : List (Nat × Nat)) (hcomps : components S = .ok comps)
+    (ind : Nat) (hind : ind < S.I.nind) (c : Nat) (hc : c < S.I.ncols)
+    (hent : colEntry S.I β τ c ind = (0, 1) ∨ colEntry S.I β τ c ind = (1, 0))
+    (mc : Nat) (hmc : WhVerif.C03.compOf comps (posAt S.pos c) = some mc) :
+    ∃ rows, pipeline S = some rows ∧
+      ∀ row ∈ rows, row.pos = posAt S.pos c → ∀ j, S.header[j]? = some (S.names.getD ind "") →
+        samplePhase row j =
+          some ⟨some ((mc : Int) + 1), [some (colEntry S.I β τ c ind).1, some (colEntry S.I β τ c ind).2]⟩ :=
+  ped_vcf_phased S hwf hin β τ hw comps hcomps ind hind c hc hent mc hmc
+
+/-- non-vacuity: the trio `exPed` (`Lemmas/C05PipelineExample.lean`) with a NOISY child read (optimal cost 3 > 0) satisfies
+every hypothesis of the three theorems, for tag PS and tag HP; the decoded rows (header `kid, dad, mom, other`) are: child
+`1|0` at both variants, father `0|1`, mother phased only where heterozygous, the unrelated sample untouched -/
+example (tag : WhVerif.C04.Tag) :
+    WF exPed ∧ PedOK exPed ∧ Trusted exPed ∧ PedPipelineOk (exStage tag) ∧
+    witness exPed = some ([false, false, false], [0, 0]) ∧ dpCost exPed = some 3 ∧
+    components (exStage tag) = .ok [(100, 100), (200, 100)] ∧ exPed.trios[0]? = some (0, 1, 2) ∧
+    solverColumns exPed = some [[(0, 1), (0, 0), (1, 0)], [(0, 1), (1, 0), (1, 0)]] ∧
+    (pipeline (exStage tag)).map (·.map rowPhases) =
+      some [(100, [some ⟨some 101, [some 1, some 0]⟩, some ⟨some 101, [some 0, some 1]⟩, none, none]),
+            (200, [some ⟨some 101, [some 1, some 0]⟩, some ⟨some 101, [some 0, some 1]⟩,
+                   some ⟨some 101, [some 1, some 0]⟩, none])] :=
+  ⟨exPed_wf, exPed_pedOK, exPed_trusted, exStage_ok tag, exPed_witness, exPed_cost, exStage_comps tag, rfl,
+    exColumns, exPipeline tag⟩
+
+/-- non-vacuity of the seam hypothesis `hlink` of `pedigree_vcf_mendelian_input_gt` on the same example -/
+example (tag : WhVerif.C04.Tag) : ∀ r ∈ (exStage tag).records, ∀ c, c < (exStage tag).I.ncols →
+    r.pos = posAt (exStage tag).pos c → ∀ ind, ind < (exStage tag).I.nind → ∀ call g,
+    WhVerif.C04.clookup r.calls ((exStage tag).names.getD ind "") = some call →
+    trustedGeno (exStage tag).I ind c = some g → WhVerif.C04.gcode call.gt = genoAlleles g := exStage_link tag
 
 end WhVerif.Props.C05
